@@ -4,6 +4,15 @@ vc   : qualified names of the real functions whose contracts (contracts/*.py) ar
 sym  : symrun suites (real code on symbolic parameters, identities discharged by z3)
 rtc  : bounded run-time-contract driver (stand-in; never counted as proved)"""
 
+# the type model as a refinement of the real classes (contracts/types.py)
+TYPE_VC = ['cat.Ob.__init__', 'monoidal.Ty.__init__', 'monoidal.Ty.objects', 'monoidal.Ty.tensor', 'monoidal.Ty.__matmul__',
+           'monoidal.Ty.__getitem__', 'monoidal.Ty.__len__', 'monoidal.Ty.__eq__', 'monoidal.Ty.upgrade',
+           'monoidal.Ty.downgrade', 'monoidal.Ty.__iter__', 'cat.Arrow.upgrade', 'monoidal.Diagram.upgrade',
+           'monoidal.Diagram.subclass.<locals>.upgrade']
+ADJOINT_VC = ['rigid.Ob.__init__', 'rigid.Ob.l', 'rigid.Ob.r', 'rigid.Ob.z', 'rigid.Ty.__init__', 'rigid.Ty.upgrade',
+              'rigid.Ty.l', 'rigid.Ty.r', 'rigid.Ty.z', 'rigid.Ty.__lshift__', 'rigid.Ty.__rshift__',
+              'lemma:adjoint.inverse.l', 'lemma:adjoint.inverse.r', 'lemma:adjoint.antihom.l', 'lemma:adjoint.antihom.r']
+
 CORE_VC = ['cat.Arrow.__init__', 'cat.Id.__init__', 'cat.Arrow.then', 'cat.Arrow.__getitem__',
            'monoidal.Layer.__init__', 'monoidal.Diagram.__init__', 'monoidal.Id.__init__']
 
@@ -15,7 +24,7 @@ PROPS = {
                       'monoidal.Diagram.__getitem__', 'rewriting.interchange', 'rewriting.interchange[far]', 'rewriting.normalize',
                       'rigid.Cup.__init__', 'rigid.Cap.__init__', 'rigid.cups', 'rigid.caps', 'monoidal.Box.__init__',
                       'rigid.Box.__init__', 'monoidal.Diagram.__init__[accepts]', 'monoidal.Diagram.swap', 'rigid.Diagram.swap',
-                      'monoidal.Swap.__init__', 'rigid.Swap.__init__', 'lemma:canary:then.len'],
+                      'monoidal.Swap.__init__', 'rigid.Swap.__init__', 'lemma:canary:then.len'] + TYPE_VC + ADJOINT_VC,
         sym=[], rtc='C01',
         level_text='Proof of the representation invariant wf (boxes/offsets scan from dom to cod, each box finds its '
                    'domain at its offset, the layer view agrees) for the constructor scan (establishes wf or raises, '
@@ -203,7 +212,7 @@ PROPS = {
         level='proof',
         vc=['monoidal.Functor.__call__', 'monoidal.Diagram.then', 'monoidal.Diagram.tensor', 'monoidal.Id.__init__',
             'rigid.Functor.__call__[Cup]', 'rigid.Functor.__call__[Cap]', 'rigid.cups', 'rigid.caps', 'rigid.Cup.__init__',
-            'rigid.Cap.__init__', 'lemma:canary:rigid.functor', 'lemma:canary:adjoint.homomorphic'],
+            'rigid.Cap.__init__', 'lemma:canary:rigid.functor', 'lemma:canary:adjoint.homomorphic'] + ADJOINT_VC,
         sym=[], rtc='C04',
         level_text='Proof (type-level clauses, all functors, all diagrams of any length): the real whiskering loop of '
                    'monoidal.Functor.__call__ is verified with a relational loop invariant against the contracts of then / '
@@ -310,7 +319,7 @@ PROPS = {
             'biclosed.Functor.__call__[FX]', 'biclosed.Functor.__call__[BX]', 'biclosed.Functor.__call__[Curry]',
             'rigid.cups', 'rigid.caps', 'rigid.Cup.__init__', 'rigid.Cap.__init__', 'rigid.Diagram.swap',
             'monoidal.Diagram.swap', 'lemma:canary:adjoint.homomorphic', 'lemma:canary:slash.functor',
-            'lemma:canary:constructors'],
+            'lemma:canary:constructors'] + ADJOINT_VC,
         sym=[], rtc='C18',
         level_text='Proved (VC, all type lengths and nesting depths): the translation clause, end to end for a single rule. '
                    '(1) The class invariants of the rule boxes: the real constructors of biclosed.FA / BA / FC / BC / FX / BX / '
@@ -424,4 +433,4 @@ FIX_COMMITS = ['da35a0f fix: Y gate', 'e208434 fix: Ry', '1d0097a fix: Controlle
 def claimed():
     return sorted(PROPS)
 
-CONTRACT_MODULES = ['core', 'rewriting', 'lemmas', 'eqhash', 'functors', 'grammar', 'cartesian', 'structural']
+CONTRACT_MODULES = ['core', 'rewriting', 'lemmas', 'eqhash', 'functors', 'grammar', 'cartesian', 'structural', 'types']
